@@ -135,7 +135,24 @@ def _decorate(wd, d, paths):
         alt = {"multi": other[0] + "," + other[1], "symbolic": "<DEL>"}.get(k, other[0])
         info = "SVTYPE=DEL;END=%d" % (p0 + 5) if k == "symbolic" else "."
         calls = [[rng.choice(gts)] for _ in samples]
-        out.append({"chrom": names[x["chrom"]], "pos": p0 + 1, "ref": b, "alt": alt, "info": info, "fmt": ["GT"], "calls": calls,
+        dfmt = ["GT"]
+        pre = wd.get("prephased")
+        if pre and rng.random() < 0.6:
+            # the unsupported record arrives PHASED (another tool, an earlier run): the run must not leave it marked phased
+            dfmt = ["GT", pre]
+            for c in calls:
+                als = c[0].split("/")
+                if len(als) == 2 and "." not in als and rng.random() < 0.7:
+                    if pre == "PS":
+                        if rng.random() < 0.5:
+                            als.reverse()
+                        c[0] = "|".join(als)
+                        c.append(str(rng.choice([5, 77, p0 + 1])))
+                    else:
+                        c.append(rng.choice(["9-1,9-2", "9-2,9-1"]))
+                else:
+                    c.append(".")
+        out.append({"chrom": names[x["chrom"]], "pos": p0 + 1, "ref": b, "alt": alt, "info": info, "fmt": dfmt, "calls": calls,
                     "_k": (x["chrom"], p0 + 1, x["order"])})
     out.sort(key=lambda r: r["_k"])
     contigs = [(n, len(s[0])) for n, s in zip(names, seqs)]
